@@ -41,7 +41,15 @@ def hooks():
         kind = "hook" if s.startswith("verif hook") else ("fix" if s.startswith("fix:") else "other")
         out.append(f"| {h} | {kind} | {esc(s)} |")
     return "\n".join(out)
-gen = {"findings": findings, "seeded": seeded, "mutants": mutants, "repo-commits": hooks}
+def notcovered():
+    t = {}
+    for f in sorted(glob.glob(f"{ROOT}/harness/chk-*/checks.json")):
+        t.update(json.load(open(f)))
+    out = ["| property | check binary | level | assumptions, trusted parts and what the check does not cover (registry `note`) |", "|---|---|---|---|"]
+    for k in sorted(t):
+        out.append(f"| {k} | {t[k]['bin']} | {t[k].get('level','exploration')} | {esc(t[k]['note'])} |")
+    return "\n".join(out)
+gen = {"notcovered": notcovered, "findings": findings, "seeded": seeded, "mutants": mutants, "repo-commits": hooks}
 p = f"{ROOT}/DESIGN.md"
 s = open(p).read()
 for k, fn in gen.items():
